@@ -213,3 +213,28 @@ func lemmaBackoffMono(T, i, j int) {
 //@   ensures[reply] sarDone() && int(sarResp().MessageType) == 7 ==> result0 == sarResp() && result1 == nil
 //@   ensures[advertise] sarDone() && int(sarResp().MessageType) == 2 ==> called("(*Client).Request") && callarg("(*Client).Request", 2) == sarResp() && result0 == callresult("(*Client).Request", 0) && result1 == callresult("(*Client).Request", 1)
 //@   ensures[failed] called("(*Client).SendAndRead") && sarErr() != nil ==> result0 == nil && result1 != nil
+
+// ---------- configuration (property C12: the *configured* schedule) ----------
+// A caller's option is modelled as a function that writes arbitrary values, a function of the option alone, into the
+// client's try count and timeout (the "contract type ClientOpt" clause; userRetry / userTimeout are abstract). The
+// constructor, verified with the option loop unrolled for one option, must hand back a client that still has exactly
+// those values: nothing the constructor does after applying the options may change them.
+//@ contract userRetry
+//@   trusted
+func userRetry(z int) int { return 0 }
+
+//@ contract userTimeout
+//@   trusted
+func userTimeout(z int) int { return 0 }
+
+//@ contract type ClientOpt
+//@   trusted
+//@   modifies arg0
+//@   ensures arg0.retry == userRetry(0) && int(arg0.timeout) == userTimeout(0) && arg0.conn == old(arg0.conn) && arg0.pending == old(arg0.pending) && arg0.done == old(arg0.done)
+
+//@ contract NewWithConn
+//@   unroll 2
+//@   requires len(opts) <= 1 && (len(opts) == 1 ==> opts[0] != nil)
+//@   ensures[defaults] result1 == nil && len(opts) == 0 ==> result0 != nil && result0.retry == 3 && int(result0.timeout) == 5000000000
+//@   ensures[local-options-last] result1 == nil && len(opts) == 1 ==> result0 != nil && result0.retry == userRetry(0) && int(result0.timeout) == userTimeout(0)
+//@   ensures[no-conn] conn == nil && len(opts) == 0 ==> result1 != nil
